@@ -806,6 +806,17 @@ def run_projects(ctx: Ctx, oracle_only: bool = False, jobs_fn=make_jobs) -> T.Li
             ctx.tag('reqs-from-spec', r.get('nspec', 0))
             if group == 'gen':
                 ctx.tag('matrix:' + label[4:])
+                # features whose file names are computed by a second code path than the statement that produces them
+                t = r['ninja']
+                mb = ' '.join(v for k, v in (job.get('files') or {}).items() if k.endswith('meson.build'))
+                for feat, present in (('unity-file', '-unity' in t), ('pch', '.gch' in t), ('rsp-rule', '_RSP ' in t or '_RSP\n' in t),
+                                      ('extract_objects', 'extract_objects' in mb), ('extract_all_objects', 'extract_all_objects' in mb),
+                                      ('shlib-alias', 'meson-implicit-outs' in t), ('depfile', ': CUSTOM_COMMAND_DEP' in t),
+                                      ('flat-private-dir', 'meson-out/' in t), ('generated-source', 'meson-generated_' in t),
+                                      ('link_whole', 'link_whole' in mb), ('both-reuse-objects', 'both_libraries' in mb),
+                                      ('unity_size', any(a.startswith('-Dunity_size=') for a in job['args']))):
+                    if present:
+                        ctx.tag('feat:' + feat)
             ctx.seen_nontrivial((label, job.get('seed') or job.get('name')))
             if group == 'collision':
                 kind = label.split(':', 1)[1]
@@ -1148,6 +1159,12 @@ def run_emission(ctx: Ctx) -> None:
         mrules = []
         mb = []
         for p in parts[2:]:
+            if p.startswith('P:'):
+                # the model's printed build lines vs the lines NinjaBuildElement.write produced (character for character)
+                impl_lines = ''.join(ln + '\n\n' for ln in text.split('\n') if ln.startswith('build '))
+                if dec(p[2:]) != impl_lines:
+                    ctx.disagreement({'kind': 'emit-printed-lines', 'input': ops, 'impl': impl_lines[:300], 'model': dec(p[2:])[:300]})
+                continue
             if p.startswith('R:'):
                 mrules = dec_list(p[2:])
             elif p.startswith('B:'):
